@@ -301,7 +301,9 @@ def pin(index, rep, flow):
               f"the human consumption pinned in round 2 originates from {sorted(org)}, expected calculate_human_consumption_for_min_needs",
               loc=loc(RUN, call[0]))
     inl2 = Inliner(rr2)
-    args = [inl2.src(a) for a in call[0].args[:2]]
+    from .core import args_by_ref_names as _abn, ref_params as _rp
+    ro_ = index.func(RUN, "ScenarioRunner.run_optimizer")
+    args = [inl2.src(a) for a in _abn(call[0], ro_, ["consts_for_optimizer", "time_consts"]) if a is not None]
     okc = len(args) == 2 and all(".compute_parameters_second_round(" in a for a in args) and args[0].endswith("[0]") and args[1].endswith("[1]") \
         and args[0][:-3] == args[1][:-3]
     rep.check(okc, rule, "round2:uses-round2-constants",
@@ -309,23 +311,33 @@ def pin(index, rep, flow):
     ro = index.func(RUN, "ScenarioRunner.run_optimizer")
     from .core import find_call as _fc, ctor_values
     fc2 = _fc(index.methods(RUN, "ScenarioRunner"), ro, "optimize_feed_to_animals")   # in run_optimizer, or in a dispatch helper it calls
-    RP = [a.arg for a in ro.args.args]
-    hand = [p_ for p_ in RP if "min_human" in p_ or "human_food" in p_]
-    ok = fc2 is not None and len(hand) == 1 and [fc2[2].src(a) for a in fc2[1].args] == [RP[1], RP[2], hand[0]] and \
-        ctor_values(fc2[2].src(fc2[1].func.value), "Optimizer") == [RP[1], RP[2]]
-    rep.check(ok, rule, "run_optimizer:passes-hand-off", "run_optimizer does not pass the hand-off to optimize_feed_to_animals", loc=loc(RUN, ro))
     of = index.func(OPT, "Optimizer.optimize_feed_to_animals")
+    oi = index.func(OPT, "Optimizer.__init__")
+    RC, RT, RH = _rp(ro, ["consts_for_optimizer", "time_consts", "optimization_type", "min_human_food_consumption"])[0:4:1][0:2] + \
+        [_rp(ro, ["consts_for_optimizer", "time_consts", "optimization_type", "min_human_food_consumption"])[3]]
+    ok = fc2 is not None
+    if ok:
+        got3 = _abn(fc2[1], of, ["consts_for_optimizer", "time_consts", "min_human_food_consumption"])
+        ctor_e = fc2[2].expr(fc2[1].func.value)
+        got2 = _abn(ctor_e, oi, ["consts_for_optimizer", "time_consts"]) if isinstance(ctor_e, ast.Call) and dotted(ctor_e.func) == "Optimizer" else [None, None]
+        ok = None not in got3 and None not in got2 and [fc2[2].src(a) for a in got3] == [RC, RT, RH] and [norm_src(a) for a in got2] == [RC, RT]
+    rep.check(ok, rule, "run_optimizer:passes-hand-off", "run_optimizer does not pass the hand-off to optimize_feed_to_animals", loc=loc(RUN, ro))
     st = [s for s in of.body if isinstance(s, ast.Assign) and norm_src(s.targets[0]) == "self.time_consts['min_human_food_consumption']"]
-    rep.check(len(st) == 1 and norm_src(st[0].value) == "min_human_food_consumption", rule, "optimizer:stores-hand-off",
+    rep.check(len(st) == 1 and norm_src(st[0].value) == _rp(of, ["consts_for_optimizer", "time_consts", "min_human_food_consumption"])[2], rule, "optimizer:stores-hand-off",
               "optimize_feed_to_animals does not store its hand-off argument where the pins read it", loc=loc(OPT, of))
     # the hand-off was computed from round 1's interpreted results
     c2r = index.func(PARAMS, "Parameters.compute_parameters_second_round")
     c = [x for x in walk_no_nested(c2r) if isinstance(x, ast.Call) and dotted(x.func) == "self.calculate_human_consumption_for_min_needs"]
-    ok = len(c) == 1 and norm_src(c[0].args[1]) == "interpreted_results_round1"
+    chm = index.func(PARAMS, "Parameters.calculate_human_consumption_for_min_needs")
+    r1_results = _rp(c2r, ["constants_inputs", "constants_out_round1", "time_consts_round1", "interpreted_results_round1"])[3]
+    got_r1 = _abn(c[0], chm, ["constants_inputs", "interpreted_results_round1"])[1] if len(c) == 1 else None
+    ok = got_r1 is not None and norm_src(got_r1) == r1_results
     rep.check(ok, rule, "hand-off:from-round1-results", "the hand-off is not computed from round 1's results", loc=loc(PARAMS, c2r))
     call1 = [x for x in walk_no_nested(rr2) if isinstance(x, ast.Call) and isinstance(x.func, ast.Attribute) and x.func.attr == "compute_parameters_second_round"]
-    ok = len(call1) == 1 and [norm_src(a) for a in call1[0].args] == ["constants_for_params", "consts_for_optimizer_round1", "time_consts_round1",
-                                                                       "interpreted_results_round1"]
+    rr2_names = _rp(rr2, ["constants_loader", "constants_for_params", "interpreted_results_round1", "percent_fed_from_model_round1",
+                          "consts_for_optimizer_round1", "time_consts_round1"])
+    got4 = _abn(call1[0], c2r, ["constants_inputs", "constants_out_round1", "time_consts_round1", "interpreted_results_round1"]) if len(call1) == 1 else [None]
+    ok = None not in got4 and [norm_src(a) for a in got4] == [rr2_names[1], rr2_names[4], rr2_names[5], rr2_names[2]]
     rep.check(ok, rule, "round2:parameters-from-round1", "compute_parameters_second_round does not receive round 1's constants and results by position",
               loc=loc(RUN, rr2))
     rep.require_min(rule, 6)
